@@ -26,6 +26,8 @@ struct Cfg {
     versions_by_env: bool,
     days: Option<i64>,
     days_by_env: bool,
+    /// index of a listen address that is already taken by another listener when the server starts
+    occupied: Option<usize>,
 }
 
 impl Cfg {
@@ -35,7 +37,7 @@ impl Cfg {
         json!({"listen": self.addrs, "listen_given_by": lf, "data_dir_by": if self.data_by_env { "DATA_DIR env" } else { "--data-dir" },
                "allow_list": self.allow.iter().map(|u| u.to_string()).collect::<Vec<_>>(), "allow_given_by": af,
                "snapshot_versions": self.versions, "snapshot_versions_by": if self.versions_by_env { "SNAPSHOT_VERSIONS env" } else { "--snapshot-versions" },
-               "snapshot_days": self.days, "snapshot_days_by": if self.days_by_env { "SNAPSHOT_DAYS env" } else { "--snapshot-days" }})
+               "occupied_address": self.occupied.map(|i| self.addrs[i].clone()), "snapshot_days": self.days, "snapshot_days_by": if self.days_by_env { "SNAPSHOT_DAYS env" } else { "--snapshot-days" }})
     }
     fn launch(&self, dir: &std::path::Path) -> (Vec<String>, Vec<(String, String)>) {
         let mut args: Vec<String> = vec![];
@@ -111,6 +113,8 @@ fn gen_cfg(rng: &mut Rng) -> Option<Cfg> {
             _ => format!("localhost:{p}"),
         });
     }
+    let occupy = n >= 2 && rng.pct(25);
+    let occ_idx = rng.usize(n);
     let n_allow = match rng.below(4) {
         0 => 0,
         1 => 1,
@@ -135,6 +139,7 @@ fn gen_cfg(rng: &mut Rng) -> Option<Cfg> {
         versions_by_env: rng.pct(50),
         days: if rng.pct(85) { Some(*rng.pick(&[1i64, 2, 3, 5, 30])) } else { None },
         days_by_env: rng.pct(50),
+        occupied: if occupy { Some(occ_idx) } else { None },
     })
 }
 
@@ -157,6 +162,34 @@ fn run_cfg(cfg: &Cfg, bin: &std::path::Path, rng: &mut Rng, cov: &mut Cov) -> Re
     let data = dir.path().join("data");
     let (args, env) = cfg.launch(&data);
     let eff = cfg.effective();
+    // ---- a configured address that cannot be bound: the server must not come up half-configured
+    if let Some(oi) = cfg.occupied {
+        let a = cfg.addrs[oi].replace("localhost", "127.0.0.1");
+        let Ok(_holder) = std::net::TcpListener::bind(&a) else { return Err("cannot occupy the address".into()) };
+        let mut proc = match Proc::start(bin, &args, &env, &[], Duration::from_secs(20)) {
+            Ok(p) => p,
+            Err(_) => {
+                cov.hit("unbindable-address:refused-to-start".into());
+                return Ok(None);
+            }
+        };
+        let t0 = std::time::Instant::now();
+        while t0.elapsed() < Duration::from_millis(2500) {
+            if !proc.alive() {
+                cov.hit("unbindable-address:refused-to-start".into());
+                return Ok(None);
+            }
+            std::thread::sleep(Duration::from_millis(25));
+        }
+        // still running: is it serving the other addresses while silently skipping this one?
+        let served: Vec<&String> = cfg.addrs.iter().enumerate().filter(|(i, _)| *i != oi).map(|(_, a)| a).filter(|a| socket_request(a, &HttpReq::new("GET", "/"), Framing::ContentLength, Duration::from_secs(5)).status == 200).collect();
+        proc.kill9();
+        if !served.is_empty() {
+            return Ok(Some(format!("listen address {} was already in use when the server started, yet the server runs and serves {served:?}: it does not serve on every configured address {:?}", cfg.addrs[oi], cfg.addrs)));
+        }
+        cov.hit("unbindable-address:not-serving".into());
+        return Ok(None);
+    }
     let mut proc = Proc::start(bin, &args, &env, &[], Duration::from_secs(20)).map_err(|e| format!("start: {e}"))?;
     // every configured address must serve
     let t0 = std::time::Instant::now();
@@ -382,12 +415,12 @@ pub fn finalize(out: ShardOut, is_replay: bool) -> CheckResult {
     let coverage = json!({
         "evaluations": cov.evaluations,
         "distinct_nontrivial": cov.situations.len(),
-        "rule": "configurations drawn from the seed: 1-3 listen addresses among 127.0.0.1 / [::1] / localhost (repeated flag, comma list, LISTEN), data directory by flag or DATA_DIR, allow-list none/one/many in non-ascending order (repeated flag, comma list, CLIENT_ID), snapshot-versions in {1,2,3,5} and snapshot-days in {1,2,3,5,30} by flag or env or defaulted. The real executable is started; every address must serve; every listed client is served and a stranger refused on every address; a history of add-versions checks X-Snapshot-Request against the exact specification for the configured targets; kill -9, restart with the equivalent configuration given in the other form: chain, payloads and snapshot must be served as stored; then the stored snapshot is aged with the storage API while the server is down (target-1, target, 3/2 target+1 days) and the urgency after restart must follow snapshot-days. distinct_nontrivial = distinct configuration features / observations.",
+        "rule": "configurations drawn from the seed: 1-3 listen addresses among 127.0.0.1 / [::1] / localhost (repeated flag, comma list, LISTEN), data directory by flag or DATA_DIR, allow-list none/one/many in non-ascending order (repeated flag, comma list, CLIENT_ID), snapshot-versions in {1,2,3,5} and snapshot-days in {1,2,3,5,30} by flag or env or defaulted. The real executable is started; every address must serve (and in a quarter of the multi-address configurations one address is already taken by another listener: the server must then refuse to start rather than run half-configured); every listed client is served and a stranger refused on every address; a history of add-versions checks X-Snapshot-Request against the exact specification for the configured targets; kill -9, restart with the equivalent configuration given in the other form: chain, payloads and snapshot must be served as stored; then the stored snapshot is aged with the storage API while the server is down (target-1, target, 3/2 target+1 days) and the urgency after restart must follow snapshot-days. distinct_nontrivial = distinct configuration features / observations.",
         "samples": cov.samples,
         "configurations_completed": out.executed,
         "situations": top.iter().take(40).map(|(k, v)| json!({"situation": k, "n": v})).collect::<Vec<_>>(),
     });
-    let required = ["address-served:ipv4", "address-served:ipv6", "address-served:name", "allow:many", "allow:none", "kill9-restart", "urgency-by-versions:Low", "urgency-by-versions:High", "urgency-by-age:Low", "urgency-by-age:High", "urgency-by-age:None", "data-dir:env", "data-dir:flag"];
+    let required = ["unbindable-address:", "address-served:ipv4", "address-served:ipv6", "address-served:name", "allow:many", "allow:none", "kill9-restart", "urgency-by-versions:Low", "urgency-by-versions:High", "urgency-by-age:Low", "urgency-by-age:High", "urgency-by-age:None", "data-dir:env", "data-dir:flag"];
     let verdict = if !out.found.is_empty() {
         Verdict::Violated(out.found)
     } else if !out.errors.is_empty() {
